@@ -1,8 +1,13 @@
 """C02 — protobuf write -> read is lossless.
 oracle: generated scenarios (enum members restricted to names present in the .proto) written by the real protobuf
         writer, read by the real reader; canonical content compared, every real bit-identical (tolerance 0)
-corr:   enum transport by name (Model/EnumName.v on the GENERATED tables) vs pb Enum.Value / Enum.Name + Python
-        enum lookup, exhaustive over all members of all enums of the format"""
+tables: ONE description of the protobuf format (props/c02_pbfmt.py) -> coq/Gen/PbFmt.v (tables W / R, descriptor
+        table), value extraction, cross-check against the *_pb2 descriptors; presence discipline of every field
+        re-derived from the writer / reader source (props/c02_scan.py) - all on every run, fail-closed
+corr:   A / B: generic codec of Model/Codec.v on the GENERATED tables vs the message the real writer serialised and
+        the objects the real reader built (props/c02_corr.py, Corr/C02.v), exact, inside Coq;
+        E: enum transport by name (Model/EnumName.v on the GENERATED enum tables) vs pb Enum.Value / Enum.Name +
+        Python enum lookup, exhaustive over all members of all enums of the format"""
 import importlib
 import pkgutil
 
@@ -13,18 +18,39 @@ from vlib.flow import load_corpus
 
 RULE = ("scenarios + planning-problem sets generated from one seed each as for C01 (props/codec_gen.py, fmt=pb: enum "
         "members and state attributes restricted to those the .proto knows; static obstacles with and without signal "
-        "series; point-mass trajectories included); 40% with the edge stream of magnitudes. distinct = distinct seeds; "
-        "non-trivial = at least one obstacle / sign / light. Enum correspondence exhaustive over all members.")
-ASSUME = ["protobuf ParseFromString . SerializeToString is the identity on messages",
-          "the object <-> message mapping of writer / reader is not modelled: decided by the oracle only"]
+        "series; point-mass trajectories included); 40% with the edge stream of magnitudes; plus the same scenarios "
+        "with objects reset to their constructor defaults (props/c02_gen.py: absent optional data). distinct = "
+        "distinct (seed, variant); non-trivial = at least one obstacle / sign / light. Relations A / B on the first "
+        "40 (quick) / 400 (thorough) of them; enum correspondence exhaustive over all members.")
+ASSUME = ["protobuf ParseFromString . SerializeToString is the identity on messages; ListFields / HasField report the "
+          "fields a message holds (the message -> tree conversion uses nothing else)",
+          "sets are compared as sets (repeated scalar fields the API holds as sets are sorted on both sides)",
+          "the header date (writer's wall clock, discarded by the reader) is outside the tables"]
+
+
+def build(case):
+    if case.get("variant"):
+        from props import c02_gen
+        return c02_gen.build(case)
+    return codec_run.build(case)
 
 
 def gen(rng, n):
-    return codec_run.gen_cases(rng, n, "pb")
+    from props import c02_gen
+    base = codec_run.gen_cases(rng, n, "pb")
+    return base + c02_gen.gen_cases(rng, max(1, n // 3))
+
+
+def roundtrip_results(case):
+    if case.get("variant"):
+        from props import c02_gen
+        return c02_gen.oracle_all(case)
+    return codec_run.oracle_roundtrip_all(case)
 
 
 def oracle(case):
-    return codec_run.oracle_roundtrip(case)
+    rs = roundtrip_results(case)
+    return rs[0] if rs else None
 
 
 def enum_cases():
@@ -64,32 +90,64 @@ def enum_cases():
     return out
 
 
-def corr(ctx):
+def corr_enums(ctx):
+    from props import c02_corr
     cs = enum_cases()
     terms = [f"CEnum {qstr(e)} {qstr(m)} {qopt(n, qz)} {qopt(b, qstr)}" for e, m, n, b in cs]
-    imports = ("From Coq Require Import ZArith String List Bool NArith.\nImport ListNotations.\n"
-               "From CR Require Import Model.EnumName Gen.PbEnums Corr.C02.\nOpen Scope string_scope.\n")
-    bad, errors = ctx.coq_bad_indices("enum", imports, "", terms, "check", shard=300)
+    bad, errors = ctx.coq_bad_indices("enum", c02_corr.IMPORTS, "", terms, "check", shard=300)
     ctx.coverage["enum_members_checked"] = len(terms)
     ctx.coverage["exhaustive_enum_members"] = True
     for e in errors:
         ctx.corr_break("Corr.C02.check (coqc failed)", e)
     for i in bad:
-        ctx.corr_break("Corr.C02: enum transport by name", {"enum": cs[i][0], "member": cs[i][1], "observed": cs[i][2:]})
+        ctx.corr_break("Corr.C02 E: enum transport by name", {"enum": cs[i][0], "member": cs[i][1], "observed": cs[i][2:]})
     ctx.log(f"corr enum members={len(terms)} disagree={len(bad)} coq_errors={len(errors)}")
 
 
+def tables(ctx):
+    """regenerate Gen/PbEnums.v and Gen/PbFmt.v from the source of this run; a description that no longer matches the
+    descriptors or the writer / reader source is a broken obligation (fail closed)"""
+    from props import c02_pbfmt, c02_scan
+    changed = gen_tables.main(["PbEnums.v"])
+    try:
+        uncovered = c02_pbfmt.check_descriptors()
+        problems, deviations, summary = c02_scan.apply()
+        if gen_tables.write_if_changed("PbFmt.v", c02_pbfmt.coq_table()):
+            changed.append("PbFmt.v")
+    except Exception as e:  # noqa  (fail closed: the description does not fit the shipped definition any more)
+        ctx.proof_breaks.append({"theorem": "format description vs *_pb2 descriptors", "where": "props/c02_pbfmt.py",
+                                 "log": f"{type(e).__name__}: {e}"})
+        ctx.log(f"proof_broken format description: {type(e).__name__}: {e}")
+        return
+    ctx.coverage["proto_fields_not_in_tables"] = uncovered
+    ctx.coverage["source_scan"] = summary
+    ctx.coverage["table_deviations"] = deviations
+    for p in problems:
+        ctx.proof_breaks.append({"theorem": "format description vs writer / reader source", "where": "props/c02_scan.py",
+                                 "log": p})
+        ctx.log(f"proof_broken source scan: {p}")
+    for d in deviations:
+        ctx.log(f"table deviation: {d}")
+    if changed:
+        ctx.notes.append(f"regenerated {changed} from the repository")
+
+
 def run(ctx):
+    from props import c02_corr
     ctx.trusted = ["Coq 8.16.1 kernel + vm_compute (no native_compute)",
                    "axioms: none (Print Assumptions: Closed under the global context)",
-                   "translator harness/gen_tables.py:gen_pbenums (protobuf enum tables from the *_pb2 descriptors, Python "
-                   "enum member names), regenerated on every run",
-                   "harness/vlib/canon.py + props/codec_gen.py (generator, canonical comparison, tolerance 0)",
-                   "google.protobuf runtime"]
-    changed = gen_tables.main(["PbEnums.v"])
-    if changed:
-        ctx.notes.append(f"regenerated {changed} from /repo")
-    ctx.build_props()
+                   "translator harness/props/c02_pbfmt.py: ONE format description generates coq/Gen/PbFmt.v (tables W, R, "
+                   "descriptor table read from the *_pb2 modules), extracts values from the Python objects; State "
+                   "attributes and country enums read from the descriptors; regenerated on every run",
+                   "harness/props/c02_scan.py (ast scan of file_writer_protobuf.py / file_reader_protobuf.py: which "
+                   "fields are set unconditionally / guarded / appended, read with / without HasField)",
+                   "translator harness/gen_tables.py:gen_pbenums (protobuf enum tables from the *_pb2 descriptors)",
+                   "correspondence relations coq/Corr/C02.v (A: written message = write W; B: read-back = read R; E: enums)",
+                   "harness/vlib/canon.py + props/codec_gen.py + props/c02_gen.py (generator, canonical comparison, tolerance 0)",
+                   "google.protobuf runtime (serialisation, ListFields, HasField, descriptors)"]
+    tables(ctx)
+    if not ctx.build_props():
+        _build_corr(ctx)
     if ctx.tier == "thorough":
         ctx.coqchk()
     n = ctx.n(150, 4000)
@@ -97,17 +155,52 @@ def run(ctx):
 
     def run_oracle(cs):
         for c in cs:
-            d = codec_run.describe(c)
+            sc, pps, meta = build(c)
+            d = {"lanelets": len(sc.lanelet_network.lanelets), "signs": len(sc.lanelet_network.traffic_signs),
+                 "lights": len(sc.lanelet_network.traffic_lights), "intersections": len(sc.lanelet_network.intersections),
+                 "static": len(sc.static_obstacles), "dynamic": len(sc.dynamic_obstacles),
+                 "phantom": len(sc.phantom_obstacle), "environment": len(sc.environment_obstacle)}
             ctx.count(c, d["static"] + d["dynamic"] + d["phantom"] + d["environment"] + d["signs"] + d["lights"] > 0,
-                      "pb scenario" + (" (edge magnitudes)" if c.get("edge") else ""))
-            for k in ("lanelets", "static", "dynamic", "phantom", "environment", "signs", "lights", "intersections"):
+                      "pb scenario" + (" (constructor defaults)" if c.get("variant") else "")
+                      + (" (edge magnitudes)" if c.get("edge") else ""))
+            for k in d:
                 ctx.dist["total " + k] = ctx.dist.get("total " + k, 0) + d[k]
-            for r in codec_run.oracle_roundtrip_all(c):
+            for r in roundtrip_results(c):
                 ctx.fail(r[0], r[1], c)
 
     run_oracle(cases)
-    corr(ctx)
+    n_corr = ctx.n(40, 400)
+    half = n_corr * 3 // 4
+    plain = [c for c in cases if not c.get("variant")][:half]
+    dflt = [c for c in cases if c.get("variant")][:n_corr - half]
+    if _tables_built():
+        c02_corr.run(ctx, plain + dflt, n_corr, build)
+    else:
+        ctx.log("Gen/PbFmt.v / Corr/C02.v did not build: relations A / B not evaluated")
+    corr_enums(ctx)
     if (ctx.proof_breaks or ctx.corr_breaks) and not ctx.failures:
         ctx.log("proof/correspondence broke; widening the search")
-        run_oracle(gen(ctx.rng, n * 5))
+        run_oracle([b["case"] for b in ctx.corr_breaks if isinstance(b.get("case"), dict) and "seed" in b["case"]])
+        if not ctx.failures:
+            run_oracle(gen(ctx.rng, n * 5))
     return ctx.finish(RULE, assumptions=ASSUME)
+
+
+def _tables_built():
+    import os
+    from vlib.core import COQ
+    return all(os.path.exists(os.path.join(COQ, d, f)) and
+               os.path.getmtime(os.path.join(COQ, d, f)) >= os.path.getmtime(os.path.join(COQ, "Gen", "PbFmt.v"))
+               for d, f in (("Gen", "PbFmt.vo"), ("Corr", "C02.vo")))
+
+
+def _build_corr(ctx):
+    """a theorem about the tables no longer checks: the correspondence relation itself (Corr/C02.v needs the generated
+    tables only, not the proofs) is still built, so that relations A / B can localise the disagreement"""
+    import subprocess
+    from vlib.core import COQ
+    lock = ctx._lock()
+    try:
+        subprocess.run(["timeout", "600", "make", "-f", "Makefile.coq", "-k", "Corr/C02.vo"], cwd=COQ, capture_output=True)
+    finally:
+        lock.close()
